@@ -191,3 +191,217 @@ register(JeaiiiWriter("jeaiii_u32", "from_u32", "u32", 10, 10))
 register(JeaiiiWriter("jeaiii_u64", "from_u64", "u64", 20, 20))
 register(JeaiiiWriter("jeaiii_i64", "from_i64", "u64", 19, 19, pre=u64_pre_i64))
 register(JeaiiiWriter("jeaiii_u128", "from_u128", "u128", 39, 39))
+
+
+# ------------------------------------------------------------------ generic scalar kernels
+class ScalarKernel(Kernel):
+    """A function of scalar arguments. Every MIR obligation (assert, panic, bounds, assume) must be
+    unreachable for all argument values satisfying `pre`; optionally the boolean/struct result must
+    satisfy `post` (given as a function building the *negated* property)."""
+
+    def __init__(self, kid, fn, argspec, desc, pre=None, negpost=None, cases=None, fmt_out=None, violates=None,
+                 funcs=None, timeout_s=60, concrete=None, feas_ms=1500):
+        super().__init__(kid)
+        self.fn = fn
+        self.argspec = argspec    # [(name, ty)]
+        self.desc = desc
+        self.pre = pre            # lambda vars(dict name->z3) -> [z3 bool]
+        self.negpost = negpost    # lambda vars, ret(value) -> z3 bool (negated property) or None
+        self.cases_fn = cases
+        self.fmt_out = fmt_out or _fmt_scalar
+        self.violates_fn = violates
+        self.funcs = funcs or [fn]
+        self.timeout_s = timeout_s
+        self.concrete = concrete or {}   # name -> concrete value (kernel specialised to it)
+        self.feas_ms = feas_ms
+
+    def _vars(self):
+        vs = {}
+        for nm, ty in self.argspec:
+            if nm in self.concrete:
+                v = self.concrete[nm]
+                vs[nm] = z3.BoolVal(bool(v)) if ty == "bool" else z3.BitVecVal(v, INT_TYPES[ty][0])
+            elif ty == "bool":
+                vs[nm] = z3.Bool(nm)
+            else:
+                vs[nm] = z3.BitVec(nm, INT_TYPES[ty][0])
+        return vs
+
+    def symbolic(self, P):
+        import time
+        from mirexec import State
+        t0 = time.time()
+        res = KernelResult(self.kid)
+        vs = self._vars()
+        pre = self.pre(vs) if self.pre else []
+        ex = Executor(P, feas_timeout_ms=self.feas_ms)
+        fn = P.lookup(self.fn)
+        if fn is None:
+            raise Unsupported("no MIR for " + self.fn)
+        st = State()
+        st.pc.extend(pre)
+        ex._push(st, fn, [Int(ty, vs[nm]) for nm, ty in self.argspec], None, None)
+        work, paths = [st], []
+        while work:
+            s = work.pop()
+            r = ex._run_path(s, work)
+            if r is not None:
+                paths.append(r)
+        res.paths = len(paths)
+        names = [nm for nm, _ in self.argspec if nm not in self.concrete]
+        for i, o in enumerate(ex.obligations):
+            kind = "memory" if o.kind in ("bounds", "assume") else "panic-freedom"
+            res.queries.append(Query("%s/ob%d" % (self.kid, i), kind, "%s: %s @ %s" % (o.kind, o.msg, o.where),
+                                     o.defs + o.pc + [o.bad], names, timeout_s=self.timeout_s, extra=o.apc))
+        for pi, p in enumerate(paths):
+            if self.negpost is not None:
+                bad = self.negpost(vs, p.ret)
+                res.queries.append(Query("%s/path%d" % (self.kid, pi), "property", "postcondition on path %d" % pi,
+                                         p.defs + p.pc + [bad], names, timeout_s=self.timeout_s, extra=p.apc))
+        # one reachability witness per kernel: some path returns
+        if paths:
+            alts = [z3.And(p.defs + p.pc + p.apc) if (p.defs + p.pc + p.apc) else z3.BoolVal(True) for p in paths]
+            q = Query("%s/reach" % self.kid, "witness", "some returning path is reachable", [z3.Or(alts)],
+                      names, strategies=("cvc5", "z3-new"), timeout_s=60)
+            q.expect = "sat"
+            res.queries.append(q)
+        res.exec_s = time.time() - t0
+        res.notes.append("forks=%d obligations=%d" % (ex.nforks, len(ex.obligations)))
+        return res
+
+    def concrete_cases(self, seed):
+        return self.cases_fn(seed)
+
+    def interp(self, P, case):
+        ex = Executor(P)
+        args = []
+        for (nm, ty), v in zip(self.argspec, case):
+            if ty == "bool":
+                args.append(Int("bool", z3.BoolVal(bool(v))))
+            else:
+                args.append(Int(ty, z3.BitVecVal(v, INT_TYPES[ty][0])))
+        paths = ex.run(self.fn, args)
+        for o in ex.obligations:
+            if not z3.is_false(simp(z3.And(o.pc + [o.bad]))):
+                return "PANIC"
+        if len(paths) != 1:
+            return "PATHS=%d" % len(paths)
+        return self.fmt_out(paths[0].ret)
+
+    def native_name(self):
+        return self.fn
+
+    def native_args(self, model):
+        out = []
+        for nm, ty in self.argspec:
+            v = self.concrete.get(nm, model.get(nm, 0))
+            bits = 1 if ty == "bool" else INT_TYPES[ty][0]
+            if ty != "bool" and INT_TYPES[ty][1] and v >= (1 << (bits - 1)):
+                v -= 1 << bits
+            out.append(int(v))
+        return out
+
+    def violates(self, model, out):
+        if self.violates_fn:
+            return self.violates_fn(self.native_args(model), out)
+        return out.startswith("PANIC")
+
+
+def _fmt_scalar(v):
+    if isinstance(v, Int):
+        c = conc(simp(v.t))
+        return str(c)
+    if isinstance(v, Agg):
+        parts = []
+        for f in v.fields:
+            c = conc(simp(f.t))
+            bits, signed = INT_TYPES.get(f.ty, (1, False))
+            if signed and c >= (1 << (bits - 1)):
+                c -= 1 << bits
+            parts.append(str(c))
+        return " ".join(parts)
+    return "?"
+
+
+def _lemire_cases(lo, hi):
+    def f(seed):
+        rnd = random.Random(seed + 17)
+        cs = []
+        for q in (lo - 1, lo, lo + 1, -28, -27, -1, 0, 1, 27, 28, 55, 56, hi - 1, hi, hi + 1):
+            for w in (0, 1, 9007199254740993, 0xFFFFFFFFFFFFFFFF, 1 << 63, 123456789012345678):
+                cs.append([q & ((1 << 64) - 1), w, rnd.randrange(2)])
+        for _ in range(40):
+            cs.append([rnd.randrange(lo - 5, hi + 6) & ((1 << 64) - 1), rnd.getrandbits(64) >> rnd.randrange(64), rnd.randrange(2)])
+        return cs
+    return f
+
+
+def _signed_cases(f):
+    def g(seed):
+        out = []
+        for c in f(seed):
+            q = c[0] - (1 << 64) if c[0] >= (1 << 63) else c[0]
+            out.append([q] + c[1:])
+        return out
+    return g
+
+
+class _LemireKernel(ScalarKernel):
+    """interp() needs unsigned encodings; native driver needs signed decimal."""
+
+    def concrete_cases(self, seed):
+        return self.cases_fn(seed)
+
+    def interp(self, P, case):
+        c = list(case)
+        c[0] = c[0] & ((1 << 64) - 1)
+        return super().interp(P, c)
+
+
+for _f, _lo, _hi in (("f64", -342, 308), ("f32", -65, 38)):
+    register(_LemireKernel(
+        "lemire_nopanic_" + _f, "compute_float_" + _f, [("q", "i64"), ("w", "u64"), ("lossy", "bool")],
+        "lemire::compute_float::<%s>(q, w, lossy): no panic, no overflow, table index in range for every q: i64, w: u64, lossy" % _f,
+        cases=_signed_cases(_lemire_cases(_lo, _hi)),
+        funcs=["lexical_parse_float::lemire::compute_float::<%s>" % _f, "lemire::compute_product_approx", "lemire::power", "table_lemire::POWER_OF_FIVE_128"],
+        timeout_s=120, feas_ms=40))
+    register(_LemireKernel(
+        "lemire_lossy_rel_" + _f, "lemire_lossy_rel_" + _f, [("q", "i64"), ("w", "u64")],
+        "compute_float::<%s>(q,w,lossy=true) equals compute_float(q,w,false) unless the exact algorithm returns the error marker; all q, all 64-bit w" % _f,
+        negpost=lambda vs, ret: z3.Not(ret.t),
+        cases=lambda seed, lo=_lo, hi=_hi: [c[:2] for c in _signed_cases(_lemire_cases(lo, hi))(seed)],
+        violates=lambda args, out: out.strip() != "1",
+        funcs=["lexical_parse_float::lemire::compute_float::<%s> (twice, relational)" % _f],
+        timeout_s=120, feas_ms=40))
+
+
+def get(kid):
+    """Kernel lookup. `base@var=VAL` specialises an argument to a constant (one table row);
+    `base@var<VAL` / `base@var>VAL` restricts it to a (signed) range."""
+    import copy
+    if "@" not in kid:
+        return KERNELS[kid]
+    base, spec = kid.split("@", 1)
+    k = copy.copy(KERNELS[base])
+    k.kid = kid
+    m = re.fullmatch(r"(\w+)(=|<|>)(-?\d+)", spec)
+    var, op, val = m.group(1), m.group(2), int(m.group(3))
+    ty = dict(k.argspec)[var]
+    bits = INT_TYPES[ty][0]
+    if op == "=":
+        k.concrete = dict(k.concrete)
+        k.concrete[var] = val & ((1 << bits) - 1)
+        k.desc = k.desc + " [row %s=%d]" % (var, val)
+        oldcases = k.cases_fn
+        idx = [n for n, _ in k.argspec].index(var)
+        k.cases_fn = lambda seed: [c[:idx] + [val] + c[idx + 1:] for c in oldcases(seed)][:12]
+    else:
+        oldpre = k.pre
+        cv = z3.BitVecVal(val & ((1 << bits) - 1), bits)
+        rel = (lambda v: v < cv) if op == "<" else (lambda v: v > cv)
+        k.pre = lambda vs: (oldpre(vs) if oldpre else []) + [rel(vs[var])]
+        k.desc = k.desc + " [all %s %s %d]" % (var, op, val)
+        oldcases = k.cases_fn
+        idx = [n for n, _ in k.argspec].index(var)
+        k.cases_fn = lambda seed: [c for c in oldcases(seed) if (c[idx] < val if op == "<" else c[idx] > val)][:12]
+    return k
